@@ -79,6 +79,15 @@ def foldPairsFull (s : MState) : List α → MState
   | a :: b :: rest => foldPairsFull (s.update a b) (b :: rest)
   | _ => s
 
+/-- `xs.windows(2).into_iter().try_fold(init, |state, items| f state items[0] items[1])`: the fold over consecutive pairs that
+    stops at the first `Err` (the iterator idiom itself; the generated `GenCtl.mono_prop` is stated over it) -/
+def tryFoldPairs {σ ε : Type} (init : σ) (f : σ → α → α → Except ε σ) : List α → Except ε σ
+  | a :: b :: rest =>
+    match f init a b with
+    | .error e => .error e
+    | .ok s' => tryFoldPairs s' f (b :: rest)
+  | _ => .ok init
+
 def monotonicProp (xs : List α) : Except Fault Monotonic :=
   if xs.length ≤ 1 then .ok .notMonotonic
   else
